@@ -386,7 +386,9 @@ def meshes(ctx, navis, rng):
         vxn = navis.VoxelNeuron(grid, units=['%g nm' % s for s in size], offset=off)
         d = dict(kind='marching-cubes', grid=grid.astype(int).tolist(), voxel_size=size, offset=off.tolist())
         ctx.case(('mc', grid.tobytes().hex(), str(size), str(off.tolist())), nontrivial=True); ctx.count('mesh:voxels')
-        st, m = guarded(navis.mesh, vxn)
+        chunk = [None, 0, 2, 3, 4][int(rng.integers(5))]       # single pass, or marching cubes in chunks of that many voxels
+        d['chunk_size'] = chunk
+        st, m = guarded(navis.mesh, vxn, **({} if chunk is None else dict(chunk_size=chunk)))
         if st != 'ok':
             ctx.violation('mesh(VoxelNeuron) raised', d, m); continue
         V = np.asarray(m.vertices, float)
